@@ -149,8 +149,8 @@ def _sym_spectrum_prep(n, pd=False):
         out = onp.empty_like(flat)
         for i, m in enumerate(flat):
             q, _ = onp.linalg.qr(m + 2.0 * onp.eye(n))
-            lam = (0.7 if pd else -1.0) + 0.9 * onp.arange(n) + 0.3 * onp.tanh(onp.diag(m))
-            out[i] = (q * lam) @ q.T
+            lam = (0.7 if pd else -1.0) + 0.9 * onp.arange(n) + 0.3 * onp.tanh(onp.real(onp.diag(m)))
+            out[i] = (q * lam) @ onp.conj(q.T)  # Hermitian for complex draws
         return [out.reshape(x.shape)]
 
     return prep
@@ -161,19 +161,21 @@ def _t_eigh(c):
     b = _batch(c, 1)
     n = c.int(1, 3)
     uplo = c.choice([None, "L", "U"])
-    out = c.int(0, 2)  # 0 eigenvalues, 1 |v|^2 weighted, 2 reconstruction
+    out = c.int(0, 2)  # 0 eigenvalues, 1 |v|^2 (gauge invariant), 2 reconstruction
+    raw = c.chance(1, 4)  # eigh applied to the matrix itself: a function of one triangle only (as the repository's tests use it)
 
     def fn(ns, x):
-        xs = (x + _T(ns, x)) / 2
+        cx = ns.iscomplexobj(x)
+        xs = x if raw else ((x + ns.conj(_T(ns, x))) / 2 if cx else (x + _T(ns, x)) / 2)
         w, v = ns.linalg.eigh(xs, uplo) if uplo else ns.linalg.eigh(xs)
         if out == 0:
             return w
         if out == 1:
-            return v * v
-        return ns.einsum("...ij,...j,...kj->...ik", v, w, v)
+            return ns.real(v * ns.conj(v)) if cx else v * v
+        return ns.einsum("...ij,...j,...kj->...ik", v, w, ns.conj(v) if cx else v)
 
-    return Call("l:eigh", fn, [b + (n, n)], dom=(-1, 1), prep=_sym_spectrum_prep(n), desc=["eigh", list(b), n, uplo, out],
-                feats={"fn": "eigh", "batch": len(b), "n": n, "uplo": uplo, "out": out}, cplx=False)
+    return Call("l:eigh", fn, [b + (n, n)], dom=(-1, 1), prep=_sym_spectrum_prep(n), desc=["eigh", list(b), n, uplo, out, raw],
+                feats={"fn": "eigh", "batch": len(b), "n": n, "uplo": uplo, "out": out, "raw": raw})
 
 
 @template("l:cholesky", "linalg")
@@ -195,7 +197,9 @@ def _eig_prep(n):
         out = onp.empty_like(flat)
         for i, m in enumerate(flat):
             p = onp.eye(n) + 0.3 * m
-            lam = -1.0 + 0.9 * onp.arange(n) + 0.3 * onp.tanh(onp.diag(m))
+            lam = -1.0 + 0.9 * onp.arange(n) + 0.3 * onp.tanh(onp.real(onp.diag(m))) + 0.3j * onp.tanh(onp.imag(onp.diag(m)))
+            if not onp.iscomplexobj(m):
+                lam = onp.real(lam)
             out[i] = p @ onp.diag(lam) @ onp.linalg.inv(p)
         return [out.reshape(x.shape)]
 
@@ -211,11 +215,11 @@ def _t_eig(c):
     def fn(ns, x):
         w, v = ns.linalg.eig(x)
         if out == 0:
-            return ns.real(w)
+            return w if ns.iscomplexobj(x) else ns.real(w)
         return ns.real(v * ns.conj(v))
 
     return Call("l:eig", fn, [b + (n, n)], dom=(-1, 1), prep=_eig_prep(n), desc=["eig", list(b), n, out],
-                feats={"fn": "eig", "batch": len(b), "n": n, "out": out}, cplx=False)
+                feats={"fn": "eig", "batch": len(b), "n": n, "out": out})
 
 
 def _svd_prep(m, n):
@@ -225,10 +229,10 @@ def _svd_prep(m, n):
         out = onp.empty_like(flat)
         k = min(m, n)
         for i, a in enumerate(flat):
-            u, _ = onp.linalg.qr(a @ a.T + 2.0 * onp.eye(m))
-            v, _ = onp.linalg.qr(a.T @ a + 2.0 * onp.eye(n))
-            s = 0.6 + 0.8 * onp.arange(k)[::-1] + 0.2 * onp.tanh(a.ravel()[:k])
-            out[i] = (u[:, :k] * s) @ v[:, :k].T
+            u, _ = onp.linalg.qr(a @ onp.conj(a.T) + 2.0 * onp.eye(m))
+            v, _ = onp.linalg.qr(onp.conj(a.T) @ a + 2.0 * onp.eye(n))
+            s = 0.6 + 0.8 * onp.arange(k)[::-1] + 0.2 * onp.tanh(onp.real(a.ravel()[:k]))
+            out[i] = (u[:, :k] * s) @ onp.conj(v[:, :k].T)
         return [out.reshape(x.shape)]
 
     return prep
@@ -250,10 +254,13 @@ def _t_svd(c):
         if out == 2 and not fm:
             return ns.einsum("...ij,...j,...jk->...ik", u, s, vt)
         k = min(m, n)
+        if ns.iscomplexobj(x):  # singular vectors are defined up to a phase: |.|^2 is gauge invariant
+            u, vt = u[..., :, :k], vt[..., :k, :]
+            return ns.concatenate([ns.ravel(ns.real(u * ns.conj(u))), ns.ravel(ns.real(vt * ns.conj(vt))), ns.ravel(s)])
         return ns.concatenate([ns.ravel(u[..., :, :k] ** 2), ns.ravel(vt[..., :k, :] ** 2), ns.ravel(s)])
 
     return Call("l:svd", fn, [b + (m, n)], dom=(-1, 1), prep=_svd_prep(m, n), desc=["svd", list(b), m, n, out, fm],
-                feats={"fn": "svd", "batch": len(b), "m": m, "n": n, "out": out, "full_matrices": fm}, cplx=False)
+                feats={"fn": "svd", "batch": len(b), "m": m, "n": n, "out": out, "full_matrices": fm})
 
 
 # ---------------------------------------------------------------------------------------------------
